@@ -102,6 +102,10 @@ func (u *udpHandler) Handle() error {
 			TLOG.Errorf("Close connection %s: %v", u.config.Address, err)
 			return err // TODO: check if necessary
 		}
+		if _, status := u.server.protocol.ParsePackage(buffer[0:n]); status != PackageFull {
+			TLOG.Errorf("drop invalid udp package of %d bytes from %v", n, udpAddr)
+			continue
+		}
 		pkg := make([]byte, n)
 		copy(pkg, buffer[0:n])
 		u.handleUDPAddr(udpAddr, pkg)
